@@ -484,7 +484,7 @@ func checkMain(propID, tier string) int {
 	cov := D{
 		"evaluations":         evaluations,
 		"distinct_nontrivial": distinct,
-		"rule":                p.Rule,
+		"rule":                p.Rule + ruleAdditions[p.ID],
 		"samples":             samples,
 		"cases":               cases,
 		"cases_planned":       total,
